@@ -72,6 +72,9 @@ func c06checkIds(r *Rec, w []uint64, scheme string) {
 		sum.Add(sum, new(big.Int).SetUint64(x))
 	}
 	if sum.BitLen() > 64 {
+		if scheme == "byte" {
+			c06overflow(r, w, sum)
+		}
 		return
 	}
 	W := sum.Uint64()
@@ -203,6 +206,50 @@ func c06checkIds(r *Rec, w []uint64, scheme string) {
 	}
 }
 
+// c06overflow: committees whose total weight does not fit in 64 bits (each weight does). The library's return types
+// cannot even express f and Q then; whatever the three predicates answer is compared with big-integer arithmetic and
+// every discrepancy is reported under ONE fingerprint (recorded known finding: the sums wrap around).
+func c06overflow(r *Rec, w []uint64, W *big.Int) {
+	n := len(w)
+	members := make([]interfaces.CommitteeMember, n)
+	for i, x := range w {
+		members[i] = interfaces.CommitteeMember{Id: []byte{byte('a' + i)}, Weight: primitives.MemberWeight(x)}
+	}
+	f := new(big.Int).Div(new(big.Int).Sub(W, big.NewInt(1)), big.NewInt(3))
+	q := new(big.Int).Sub(W, f)
+	cs := map[string]interface{}{"weights": fmt.Sprint(w), "ids": "byte"}
+	r.Case(fmt.Sprintf("n%d total-above-2^64", n))
+	N := 1 << uint(n)
+	isQ := make([]bool, N)
+	for s := 0; s < N; s++ {
+		var ids []primitives.MemberId
+		wt := new(big.Int)
+		for i := 0; i < n; i++ {
+			if s&(1<<uint(i)) != 0 {
+				ids = append(ids, members[i].Id)
+				wt.Add(wt, new(big.Int).SetUint64(w[i]))
+			}
+		}
+		var hh bool
+		isQ[s], _, _ = quorum.IsQuorum(ids, members)
+		hh, _, _ = quorum.HasHonest(ids, members)
+		r.Evals += 2
+		if isQ[s] != (wt.Cmp(q) >= 0) || hh != (wt.Cmp(f) > 0) {
+			r.Bad("C06:total-weight-overflows-64-bits", fmt.Sprintf("weights %v (total %s >= 2^64): subset %b of true weight %s: IsQuorum=%v HasHonest=%v, reference Q=%s f=%s", w, W, s, wt, isQ[s], hh, q, f), cs)
+		}
+	}
+	for a := 0; a < N; a++ {
+		for b := 0; b < N; b++ {
+			if a&b == 0 && isQ[a] && isQ[b] {
+				r.Bad("C06:total-weight-overflows-64-bits", fmt.Sprintf("weights %v (total %s >= 2^64): disjoint subsets %b and %b both pass IsQuorum", w, W, a, b), cs)
+			}
+			if a&b == a && isQ[a] && !isQ[b] {
+				r.Bad("C06:total-weight-overflows-64-bits", fmt.Sprintf("weights %v (total %s >= 2^64): %b passes IsQuorum but its superset %b does not", w, W, a, b), cs)
+			}
+		}
+	}
+}
+
 func c06(r *Rec, replay map[string]interface{}) {
 	r.Rule = "weight vectors over the boundary grid {0,1,2,3,4,5,7,2^31,2^32+1,2^53-1..2^53+2,2^60+1,2^62+3, floor(2^64/n)-{0,1,2}} whose total fits in 64 bits: all ordered vectors for n<=3, all multisets (ascending and descending order) for larger n; per vector all subsets, all subset pairs, and a noisy id multiset per subset (duplicates, an unrelated outsider, the empty id, and near-miss outsiders that extend / truncate / zero-pad / re-case a member id); vectors of 2..4 small weights are repeated under six spellings of the member ids (single byte, 40-byte common prefix, zero-byte extensions of one another, common 40-byte suffix, letter-case variants, binary / invalid UTF-8). distinct_nontrivial = distinct (n, bit length of W, W mod 3) classes"
 	if replay != nil {
@@ -258,8 +305,12 @@ func c06(r *Rec, replay map[string]interface{}) {
 		}
 		rec(0, 0)
 	}
+	// committees whose total weight does not fit in 64 bits
+	for _, v := range [][]uint64{{1 << 63, 1 << 63, 1, 1}, {1 << 62, 1 << 62, 1 << 62, 1 << 62}, {^uint64(0), 1}, {^uint64(0), ^uint64(0), ^uint64(0)}, {1 << 63, 1<<63 - 1, 1, 1}, {1<<63 + 5, 1 << 63, 7}} {
+		c06checkIds(r, v, "byte")
+	}
 	r.Extra["max_committee_size"] = maxN
-	r.Assume = []string{"weights are drawn from a boundary grid, not all of uint64", "64-bit platform (uint is 64 bits)"}
+	r.Assume = []string{"weights are drawn from a boundary grid, not all of uint64", "64-bit platform (uint is 64 bits)", "committees whose total weight reaches 2^64: six explicit vectors only (recorded known finding: the sums wrap)"}
 }
 
 func trimBrackets(s string) string {
